@@ -1,10 +1,11 @@
 import Pycoin.Driver.C08
 import Pycoin.Model.ParseText
 import Pycoin.Model.Hmac
+import Pycoin.Model.Curve
 /-!
 C18 ops: `c18parse <net> <entry> <texthex>` evaluates one `ParseAPI` entry point and prints the object that came back
-together with its text forms.  `realKeyEnv` is driver glue: affine secp256k1 arithmetic over the generated generator
-parameters (used only to evaluate the model; the theorems of `Props/C18.lean` are generic in `KeyEnv`).
+together with its text forms.  `realKeyEnv` is driver glue over the C02 curve model (`points_for_x`, `contains_point`) with a Jacobian ladder for
+`se·G` over the generated generator parameters (used only to evaluate the model; the theorems of `Props/C18.lean` are generic in `KeyEnv`).
 -/
 namespace Pycoin.Driver.C18
 open Pycoin.Addr Pycoin.Driver Pycoin.Gen.Networks
@@ -77,28 +78,31 @@ def ecMul (k : Nat) (p : Option (Nat × Nat)) : Option (Nat × Nat) := Id.run do
     let zi2 := zi * zi % P
     return some (x * zi2 % P, y * (zi2 * zi % P) % P)
 
-def containsPoint (x y : Int) : Bool := (y * y - (x * x * x + (genA : Int) * x + (genB : Int))) % (P : Int) = 0
+/-- the curve every network's key classes use (`Gen/Networks.generatorShared`), as the C02 model's parameters -/
+def curve : Curve.CurveParams :=
+  { p := genP, a := genA, b := genB, gx := genGx, gy := genGy, n := genOrder }
+
+/-- `Generator._powers`, built once -/
+def powersTable : List Curve.Pt := match Curve.powers curve with | .ok t => t | .error _ => []
 
 def electrumLoop (orig : Bytes) : Nat → Bytes → Bytes
   | 0, b => b
   | n + 1, b => electrumLoop orig n (Hash.sha256 (b ++ orig))
 
+/-- `KeyEnv` over the C02 curve model (`Model/Curve.lean`): `raw_mul` with the generator's table, `points_for_x`,
+`contains_point` -/
 def realKeyEnv : KeyEnv where
   p := genP
   order := genOrder
+  -- Jacobian ladder for speed (≈10× the affine table walk of the C02 model); op `c18mulg` cross-checks it against
+  -- `Curve.rawMulLoop`, and every key op compares the resulting public pair with the implementation
   mulG se := match ecMul se (some (genGx, genGy)) with
     | some (x, y) => ((x : Int), (y : Int))
     | none => (0, 0)
-  pointsForX x :=
-    let alpha := (powMod (imod x) 3 P + genA * imod x + genB) % P
-    let y0 := powMod alpha ((P + 1) / 4) P           -- `_mod_sqrt_power` for p ≡ 3 (mod 4)
-    if y0 = 0 then none
-    else if !containsPoint x y0 then none               -- `Point.__init__` → NoSuchPointError
-    else
-      let p0 : Pt := (x, (y0 : Int))
-      let p1 : Pt := (x, ((P - y0 : Nat) : Int))
-      if y0 % 2 = 0 then some (p0, p1) else some (p1, p0)
-  containsPoint := containsPoint
+  pointsForX x := match Curve.pointsForX curve x with
+    | .ok (some a, some b) => some (a, b)
+    | _ => none
+  containsPoint x y := Curve.containsXY curve x y
   hmacSha512 := Hash.hmacSha512
   electrumStretch hex := let o := hex.toUTF8.toList; electrumLoop o 100000 o
 
@@ -152,6 +156,12 @@ def handle : Handler := fun op args =>
         | some (.ok (some _)) => go es (e :: acc)
         | _ => go es acc
     some (go checksummedEntries [])
+  | "c18mulg", [se] => do
+    let se ← parseNat? se
+    let fast := realKeyEnv.mulG se
+    match Curve.rawMulLoop curve powersTable (fmod (se : Int) genOrder) none with
+    | .ok (some pt) => some (if pt = fast then s!"ok {pt.1} {pt.2}" else "ok MISMATCH")
+    | _ => some "ok infinity"
   | "c18number", [text] => do
     match asNumber (← parseText? text) with
     | some v => some ("ok " ++ (if v < 0 then "-" else "") ++ String.ofList (Nat.toDigits 16 v.natAbs))
